@@ -599,8 +599,16 @@ func (r *Run) varsFor(fr *Frame) map[string]*Val {
 	if fr.fn == r.fn {
 		return r.vars
 	}
+	// a clause of the function under verification evaluated at an instruction inside one of its helpers or closures (verified
+	// inlined): its names are that function's parameters; the helper's own parameters are visible under names it does not use
 	m := map[string]*Val{}
+	for k, v := range r.vars {
+		m[k] = v
+	}
 	for _, p := range fr.fn.Params {
+		if _, top := m[p.Name()]; top {
+			continue
+		}
 		if v, ok := fr.vals[p]; ok {
 			m[p.Name()] = v
 		}
